@@ -91,6 +91,34 @@ def run(rep, tier, seed, model_ok=True, effort=1):
         if code == 0 and not any("release notes for 1.2.4" in a for t in tags for a in t[-3:] if isinstance(a, str) and t is tags[-1]):
             rep.violation("the tag command failed and the update still exits 0 with a tag that does not carry the tag message", input=dict(vcs=vcs, exit=code, tag_commands=tags, logs=logs[-3:]),
                           **{"class": "message-dropped"})
+    # the commit message bumpver hands to hg through a UTF-8 log file is read by hg as UTF-8, whatever HGENCODING the user's environment carries
+    old_enc = os.environ.get("HGENCODING")
+    os.environ["HGENCODING"] = "latin-1"
+    try:
+        prj = project.TempProject("MAJOR.MINOR.PATCH", "1.2.3", files={"a.txt": ["ver = {version}"]}, commit=True, tag=False, push=False, vcs="fakehg",
+                                  vcs_cfg=dict(tags=[], status="", remote=None), commit_message="Ver\u00f6ffentlichung {new_version} \u2713")
+        with prj:
+            code, out, logs, exc = prj.run(impl, ["update", "--patch", "--no-fetch"])
+            commits = [e for e in prj.vcs_log() if e["key"] == "commit"]
+        rep.case(("hgencoding",), nontrivial=True)
+        if code != 0 or not commits or commits[-1].get("hgencoding") != "utf-8" or commits[-1].get("logfile_bytes") != "Ver\u00f6ffentlichung 1.2.4 \u2713":
+            rep.violation("hg commit: the UTF-8 message file is not declared as UTF-8 to hg (HGENCODING) or does not carry the message", input=dict(exit=code, preset_HGENCODING="latin-1",
+                          seen_by_hg=[(e.get("hgencoding"), e.get("logfile_bytes")) for e in commits], logs=logs[-3:]), **{"class": "hg-encoding"})
+    finally:
+        if old_enc is None:
+            os.environ.pop("HGENCODING", None)
+        else:
+            os.environ["HGENCODING"] = old_enc
+    # an explicitly empty tag message asks for a lightweight tag: no message argument is invented
+    for fmt in ("bumpver.toml", "setup.cfg"):
+        prj = project.TempProject("MAJOR.MINOR.PATCH", "1.2.3", files={"a.txt": ["ver = {version}"]}, commit=True, tag=True, push=False, vcs="fakegit", fmt=fmt,
+                                  vcs_cfg=dict(tags=[], status="", remote=None), tag_message="")
+        with prj:
+            code, out, logs, exc = prj.run(impl, ["update", "--patch", "--no-fetch"])
+            tags = [e["argv"] for e in prj.vcs_log() if e["key"] == "tag"]
+        rep.case(("empty-tag-message", fmt), nontrivial=True)
+        if code != 0 or tags != [["tag", "1.2.4"]]:
+            rep.violation("an empty tag_message does not give a plain `git tag <version>`", input=dict(config=fmt, exit=code, tag_commands=tags, logs=logs[-3:]), **{"class": "tag-message-invented"})
     # end to end through `update`
     for i in range(n):
         vcs = r.choice(["fakegit", "fakegit", "fakehg"])
